@@ -202,7 +202,7 @@ Definition r_cmp_expr (op : cmpop) (sk : src_kind) (c : cmp_field) : toks :=
   let two_refs := reft ++ comma ++ reft in
   match op with
   | CPartialEq =>
-      let fn_ident := make_ident "__eq_" m in
+      let fn_ident := make_ident "__eq" m in
       match cf_expr c with
       | CEDefault _ => call2 (q ":: core :: cmp :: PartialEq :: eq") this other
       | CEKey k => call2 (q ":: core :: cmp :: PartialEq :: eq") (apply_template k this) (apply_template k other)
@@ -229,7 +229,7 @@ Definition r_cmp_expr (op : cmpop) (sk : src_kind) (c : cmp_field) : toks :=
             (q "&" ++ this ++ q ", &" ++ other ++ comma ++ b)
       end
   | CPartialOrd =>
-      let fn_ident := make_ident "__partial_ord_" m in
+      let fn_ident := make_ident "__partial_ord" m in
       let e :=
         match cf_expr c with
         | CEDefault _ => call2 (q ":: core :: cmp :: PartialOrd :: partial_cmp") this other
@@ -254,7 +254,7 @@ Definition r_cmp_expr (op : cmpop) (sk : src_kind) (c : cmp_field) : toks :=
       then q ":: core :: option :: Option :: map" ++ tparen (e ++ q ", :: core :: cmp :: Ordering :: reverse")
       else e
   | COrd =>
-      let fn_ident := make_ident "__ord_" m in
+      let fn_ident := make_ident "__ord" m in
       let e :=
         match cf_expr c with
         | CEDefault _ => call2 (q ":: core :: cmp :: Ord :: cmp") this other
@@ -269,7 +269,7 @@ Definition r_cmp_expr (op : cmpop) (sk : src_kind) (c : cmp_field) : toks :=
         end in
       if cf_reverse c then q ":: core :: cmp :: Ordering :: reverse" ++ tparen e else e
   | CHash =>
-      let fn_ident := make_ident "__hash_" m in
+      let fn_ident := make_ident "__hash" m in
       match cf_expr c with
       | CEDefault _ => q ":: core :: hash :: Hash :: hash" ++ tparen (q "&" ++ tparen this ++ q ", __state") ++ q ";"
       | CEKey k => q ":: core :: hash :: Hash :: hash" ++ tparen (q "&" ++ tparen (apply_template k this) ++ q ", __state") ++ q ";"
